@@ -24,6 +24,9 @@ impl StrTendril {
 }
 #[verifier::external_body]
 pub fn attrs_clone(a: &Vec<Attribute>) -> (r: Vec<Attribute>) ensures r@ == a@ { unimplemented!() }
+/// std::mem::take on an attribute vector (rule R16; ASSUMED: the value moves out, the default - an empty vector - stays)
+#[verifier::external_body]
+pub fn attrs_take(a: &mut Vec<Attribute>) -> (r: Vec<Attribute>) ensures r@ == old(a)@, final(a)@.len() == 0 { unimplemented!() }
 // (tokenizer::Tag and TagKind are the repository's, extracted in the unit; Tag::clone is a derive: ASSUMED to copy)
 #[derive(PartialEq, Eq, Clone, Copy, Structural)]
 pub enum QuirksMode { Quirks, LimitedQuirks, NoQuirks }
